@@ -272,6 +272,10 @@ def run(ctx):
         for d in ("NoRecover", "SilentDecodeError", "SharedPoison", "LeakOnClose"):
             if run_tlc(ctx, "server", "Containment", "Containment_defect_%s.cfg" % d, expect_ok=False)["ok"]:
                 raise vlib.Inconclusive("Containment model does not reject defect " + d)
+        # the process-wide IoBuffer pool the decoders of all connections share: one owner per buffer, given back once
+        ctx.add_tlc(run_tlc(ctx, "server", "BufferPool", "BufferPool.cfg", timeout=300))
+        if run_tlc(ctx, "server", "BufferPool", "BufferPool_defect_PutOnDecodeError.cfg", expect_ok=False)["ok"]:
+            raise vlib.Inconclusive("BufferPool model does not reject defect PutOnDecodeError")
         trace = os.path.join(ctx.tmp, "e2e.ndjson")
 
         def e2e_run(tag, extra_args, timeout=600):
